@@ -35,6 +35,7 @@ class World:
         self.pool = []
         self.index = {}  # id(obj) -> pool index
         self.kind = []
+        self.proxies = {}  # (pool idx of instance, pool idx of inner pin) -> the one proxy OuterPin object
 
     def add(self, obj):
         i = self.index.get(id(obj))
@@ -55,6 +56,17 @@ class World:
         if i is None:
             i = self.add(obj)
         return i
+
+    def proxy(self, x, i):
+        """the proxy OuterPin for (instance, inner pin): one object per pair, kept across the events of a
+        history, so that state a proxy remembers (its wire) can become stale"""
+        key = (x, i)
+        if key not in self.proxies:
+            s = core.sdn()
+            p = s.OuterPin.from_instance_and_inner_pin(self.pool[x], self.pool[i])
+            p.__dict__["_vproxy"] = True
+            self.proxies[key] = p
+        return self.proxies[key]
 
     def of_kind(self, k):
         return [i for i, kk in enumerate(self.kind) if kk in k]
@@ -171,7 +183,9 @@ def snapshot(w, hidden=True):
         w.discover()
     res = tuple(out)
     if hidden:
-        res = (res, hidden_tables(w))
+        # only a proxy that remembers a wire carries state; a fresh one is as good as none
+        prox = tuple(sorted((k, w.index.get(id(p._wire))) for k, p in w.proxies.items() if p._wire is not None))
+        res = (res, hidden_tables(w) + (prox,))
     return res
 
 
